@@ -95,6 +95,21 @@ func newRecorder(u billstat.Uploader) *billstat.RuntimeRecorder {
 
 var errUpload = errors.New("scripted upload failure")
 
+// failureErrs are the errors a failing scripted upload returns, in rotation: a
+// plain error, wrapped deadline / cancellation errors (what the gRPC uploader
+// produces for a timed-out call) and io.EOF-like errors.  Whatever the kind, a
+// failed upload must lose nothing.
+var failureErrs = []error{
+	errUpload,
+	fmt.Errorf("grpc: %w; original message: scripted", context.DeadlineExceeded),
+	fmt.Errorf("uploading: %w", context.Canceled),
+	fmt.Errorf("finishing stream: %w", io.ErrUnexpectedEOF),
+}
+
+var failureSeq atomic.Int64
+
+func nextFailureErr() error { return failureErrs[int(failureSeq.Add(1))%len(failureErrs)] }
+
 type step struct {
 	Kind string `json:"kind"` // "record", "refresh"
 	Dev  int    `json:"dev,omitempty"`
@@ -183,7 +198,9 @@ func runScripted(r *vkit.Run, caseName string, steps []step, ndev int) {
 			return nil
 		}
 		r.Bucket("uploads_failed", 1)
-		return errUpload
+		e := nextFailureErr()
+		r.Bucket("uploads_failed_with:"+failureKind(e), 1)
+		return e
 	}
 	rec = newRecorder(u)
 	for i := range steps {
@@ -252,6 +269,9 @@ func TestCheck(t *testing.T) {
 	r.Require("porcupine_ok", 1)
 	r.Require("grpc_streams_rejected", 20)
 	r.Require("overlapping_refreshes", 40)
+	r.Require("uploads_failed_with:deadline-exceeded", 20)
+	r.Require("uploads_failed_with:canceled", 20)
+	r.Require("grpc_streams_ok_without_response", 10)
 }
 
 func scripted(r *vkit.Run) {
@@ -342,7 +362,7 @@ func stress(r *vkit.Run) {
 			}
 			if !ok {
 				r.Bucket("uploads_failed", 1)
-				return errUpload
+				return nextFailureErr()
 			}
 			return nil
 		}
@@ -422,6 +442,19 @@ func stress(r *vkit.Run) {
 		}
 		r.Bucket("stress_uploads", int64(len(uploads)))
 		r.Eval(fmt.Sprintf("stress/%d", round), false)
+	}
+}
+
+func failureKind(e error) string {
+	switch {
+	case errors.Is(e, context.DeadlineExceeded):
+		return "deadline-exceeded"
+	case errors.Is(e, context.Canceled):
+		return "canceled"
+	case errors.Is(e, io.ErrUnexpectedEOF):
+		return "unexpected-eof"
+	default:
+		return "generic"
 	}
 }
 
